@@ -2,6 +2,7 @@
 package main
 
 import (
+	"encoding/json"
 	"fmt"
 	"os"
 	"sort"
@@ -30,9 +31,48 @@ func devSrc(file string) {
 		luaprop.Header, luagen.CoqBlock(prog), out.Coq(), out.Summary())
 }
 
+// replayGoSide: a replay file whose input is a Go-side case (key "api") re-runs the Go-side families (they
+// are deterministic in the seed and take seconds); the generated-program replays stay with luaprop.
+func replayGoSide() bool {
+	if len(os.Args) < 2 || os.Args[1] != "run" {
+		return false
+	}
+	a := lib.ParseArgs()
+	if a.Replay == "" {
+		return false
+	}
+	b, _ := os.ReadFile(a.Replay)
+	var rp struct {
+		Input map[string]any `json:"input"`
+		Seed  uint64         `json:"seed"`
+	}
+	if json.Unmarshal(b, &rp) != nil || rp.Input["api"] == nil {
+		return false
+	}
+	w, err := lib.NewWriter(a.Out, "C05", a.Tier, a.Seed, luaprop.VMHeader, "vcase", 20)
+	if err != nil {
+		panic(err)
+	}
+	w.HasSkip = true
+	w.Meta.Rule = "replay of the Go-side families (API-level protected calls, limits, bookkeeping after histories)"
+	seed := a.Seed
+	if rp.Seed != 0 {
+		seed = rp.Seed
+	}
+	apiProtected(w, a.Tier, seed)
+	wave5(w, a.Tier, seed)
+	if err := w.Close(); err != nil {
+		panic(err)
+	}
+	return true
+}
+
 func main() {
 	if len(os.Args) > 2 && os.Args[1] == "src" {
 		devSrc(os.Args[2])
+		return
+	}
+	if replayGoSide() {
 		return
 	}
 	f := luagen.CoreFeatures()
@@ -119,6 +159,9 @@ func faultEnumeration(w *lib.Writer, tier string, seed uint64) {
 		for k := 1; k <= e && k <= capEmit; k++ {
 			str := (k+i)%2 == 0
 			out := luagen.RunIsolated(src, 20*time.Second, &luagen.RunOptions{EmitFault: k, FaultString: str})
+			if slowChild(out.GoFail) {
+				out = luagen.RunIsolated(src, 150*time.Second, &luagen.RunOptions{EmitFault: k, FaultString: str, Timeout: 120 * time.Second})
+			}
 			coq := fmt.Sprintf("CProgF %d %v %s %s", k, str, coqProg, out.Coq())
 			if out.GoFail != "" {
 				coq = "CProg [] (Outcome [] (OOk []))"
@@ -151,6 +194,11 @@ func faultEnumeration(w *lib.Writer, tier string, seed uint64) {
 				defer wg.Done()
 				defer func() { <-sem }()
 				out := luagen.RunIsolated(src, 20*time.Second, &luagen.RunOptions{InstrFault: k, Epilogue: true})
+				if slowChild(out.GoFail) {
+					// the child's 5 s wall-clock guard fired: on a loaded machine that is not a hang -- once more
+					// with a guard a real hang still runs into
+					out = luagen.RunIsolated(src, 150*time.Second, &luagen.RunOptions{InstrFault: k, Epilogue: true, Timeout: 120 * time.Second})
+				}
 				what := out.GoFail
 				if what == "" {
 					what = instrPredicates(base, out)
@@ -171,6 +219,11 @@ func faultEnumeration(w *lib.Writer, tier string, seed uint64) {
 			}
 		}
 	}
+}
+
+// slowChild: the failure is a time limit (the child's own guard exits with status 97), not a crash
+func slowChild(goFail string) bool {
+	return strings.Contains(goFail, "exit status 97") || strings.Contains(goFail, "within the time limit")
 }
 
 func isInjected(v luagen.OVal) bool { return v.Kind == "fault" && v.K == 98 }
